@@ -235,7 +235,10 @@ def unit_policy(item):
                         outs[sb] = e
                 rec = dict(kind="policy", spec=skey, wseed=wseed, instances=[dict(instance_id=x[0], instance=x[1]) for x in g[:B]], k=k, decode_type=dt)
                 if isinstance(outs[False], Exception):
-                    if isinstance(outs[False], AssertionError) or "out of bounds" in str(outs[False]):
+                    # excusable only when the start-node rule itself cannot supply k feasible starts for some row
+                    # (that is judged in part (b)); with enough feasible first moves a crash is a failed rollout
+                    n_first = int(env.reset(tds.clone())["action_mask"].reshape(B, -1).sum(-1).min())
+                    if (isinstance(outs[False], AssertionError) or "out of bounds" in str(outs[False])) and k > n_first - 1:
                         p.note(f"am x {skey}: {dt} k={k} B={B} not runnable ({type(outs[False]).__name__}: {str(outs[False])[:60]}): start-node rule, judged in part (b)")
                         continue
                     p.violation(sig(env_name, f"am|{skey.partition(':')[2]}", f"crash:{type(outs[False]).__name__}", dt), rec, f"am x {skey}: {dt} k={k} B={B} crashed: {type(outs[False]).__name__}: {str(outs[False])[:100]}")
@@ -291,7 +294,7 @@ def unit(item):
 
 
 START_ENVS = ["tsp", "atsp", "cvrp", "cvrptw", "sdvrp", "svrp", "op:dist", "pctsp", "spctsp", "pdp", "pdp:depot", "mtsp:minmax", "mdcpdp:minsum:close:D1", "mtvrp:cvrp", "mtvrp:vrptw", "mtvrp:ovrpbltw", "smtwtp", "flp", "mcp", "ffsp:flat", "fjsp:mask", "jssp:mask"]
-POLICY_ENVS = ["tsp", "cvrp", "pdp", "mtvrp:cvrp", "sdvrp", "pctsp", "op:dist"]
+POLICY_ENVS = ["tsp", "cvrp", "pdp", "mtvrp:cvrp", "sdvrp", "pctsp", "op:dist", "mtsp:minmax", "svrp", "cvrptw", "spctsp", "mtvrp:vrptw"]
 
 
 def main(tier):
